@@ -661,17 +661,19 @@ def oracle(ctx, prob, M, Q, R, stats):
 
 def report(ctx, prob, name, sol_kind, Q, fails, rerun):
     """Turn oracle failures into ctx.fail entries with a replayable (shrunk) query sequence."""
+    import re
     done = set()
-    for msg, qi, tag in fails[:6]:
-        if (msg[:40], tag) in done:
+    norm = lambda m: re.sub(r"[-+0-9.e\[\], ]+", "#", m)[:48]
+    for msg, qi, tag in fails[:40]:
+        if (norm(msg), tag) in done or len(ctx.failing_inputs) >= 4:
             continue
-        done.add((msg[:40], tag))
+        done.add((norm(msg), tag))
         seq = Q[:qi + 1] if qi is not None else []
         if qi is not None:
             # does the single query fail on a freshly loaded file as well?
             one = [Q[qi]]
             f1 = rerun(one)
-            if any(m[:40] == msg[:40] for m, _, _ in f1):
+            if any(norm(m) == norm(msg) for m, _, _ in f1):
                 seq = one
         ctx.fail(msg + " [problem %s]" % name, finding=tag or "", problem=prob, kind=sol_kind,
                  queries=[(float(q["x"]).hex(), float(q["y"]).hex(), q["cat"]) for q in seq[-200:]],
@@ -779,7 +781,13 @@ def run_case(ctx, rng, spec, stats, coq_jobs):
     name, kind = spec[0], spec[1]
     for_coq, budget, eh = spec[8], spec[9], spec[10]
     prob = build_problem(rng, spec)
-    sol = solve(ctx, prob, name)
+    try:
+        sol = solve(ctx, prob, name)
+    except RuntimeError as e:
+        # the mesher / solver did not produce a solution file: nothing for the post-processor to load
+        # (not a C12 matter; e.g. hsolver crashes on meshes with more nodes than elements)
+        stats["notes"].append("no solution file for %s: %s" % (name, str(e)[-160:]))
+        return
     rc, M, _, err = run_harness(ctx, kind, sol, [])
     if rc != 0 or not M["ok"]:
         ctx.fail("post-processor failed to load a solution produced by the solver (rc=%d) [problem %s]" % (rc, name),
